@@ -1,4 +1,6 @@
-\* C13 exhaustive: 3 tasks x 2 names x 2 contexts, statement (flags = {})
+\* C13, statement (flags = {}): 3 tasks x 2 names x 2 contexts, all programs of <= 2 operations.
+\* Manual run:  timeout 600 tlc -workers 1 -deadlock -config Tasks.cfg Tasks.tla
+\* (the drivers generate this and the other configurations into their scratch directory: harness/tasklib.py mc_cfg)
 SPECIFICATION Spec
 CONSTANTS
   Task = {t1, t2, t3}
@@ -24,5 +26,7 @@ INVARIANT ContextsIndependent
 INVARIANT ForeignNeverCancelled
 INVARIANT KillMeKillsCallerIffOtherLiveOwner
 INVARIANT DoneInNoRegistry
+INVARIANT Witness
+POSTCONDITION WitnessReport
 SYMMETRY Sym
 CHECK_DEADLOCK FALSE
